@@ -17,7 +17,7 @@ LEVEL_RULE = (
 )
 EXHAUSTIVE_SUBDOMAINS = ["DF 0..31 x {56,112} bits x {upper,lower,mixed} for structured addresses (single-bit, all-ones, zero)"]
 ASSUMPTIONS = ["canonical form = the string icao() returns for an upper-case DF20 frame of the same address (%06X)"]
-REQUIRED = ["df%d" % d for d in range(32)] + ["ap_text_echoed_in_payload", "literal_structured_strings", "table_replies_of_strangers", "table_identical_replies_two_aircraft", "case_upper", "case_lower", "case_mixed", "len56", "len112", "table_one_key",
+REQUIRED = ["df%d" % d for d in range(32)] + ["ap_text_echoed_in_payload", "ap_field_boundary_value", "literal_structured_strings", "table_replies_of_strangers", "table_after_thousands_of_evictions", "table_identical_replies_two_aircraft", "case_upper", "case_lower", "case_mixed", "len56", "len112", "table_one_key",
                                               "allcall_rejects", "df_none"]
 
 AP = (0, 4, 5, 16, 20, 21)
@@ -41,6 +41,10 @@ def m_icao(ctx, case):
         p0 = case["echo"] % (n // 4 - 11)
         addr = int(h0[-6:], 16) ^ int(h0[p0:p0 + 6], 16)
         ctx.hit("ap_text_echoed_in_payload")
+    if case.get("apval") is not None and df in AP:
+        # address chosen so that the transmitted AP FIELD is a boundary pattern (all zero, all one, one bit, ...)
+        addr = (bits.downlink(df, body, n, 0, 0) & 0xFFFFFF) ^ case["apval"]
+        ctx.hit("ap_field_boundary_value")
     f = bits.downlink(df, body, n, addr, case.get("ic", 0))
     if case.get("literal"):
         # ANY hex string of the right length is a legal address/parity frame of SOME transponder (address = parity XOR AP):
@@ -152,6 +156,39 @@ def m_table(ctx, case):
         if got != {k1: 101.0, k2: 101.5}:
             ctx.violation("commb-attached-to-wrong-aircraft", frames=[a1, a2, b1, b2], expected={k1: 101.0, k2: 101.5}, observed=got)
         ctx.hit("table_identical_replies_two_aircraft")
+    if case.get("churn"):
+        # a long-running tracker: thousands of aircraft come and time out on ONE Decode object; afterwards a Comm-B reply of
+        # an aircraft that has timed out must not create or touch an entry, and one of a freshly heard aircraft must attach
+        d = Decode()
+        t = 1000.0
+        gone = []
+        for rnd in range(case["churn"]):
+            ads, ts = [], []
+            base_ = rng.getrandbits(23) << 1
+            for j in range(case["per_round"]):
+                a_ = (0x400000 + base_ + 2 * j + rnd * 7919 * 2) & 0xFFFFFF
+                ads.append("%028X" % bits.es_frame(17, 5, a_, me))
+                ts.append(t + j * 1e-4)
+                gone.append(a_)
+            r = call(d.process_raw, ts, ads, [], [], t + 1.0)
+            ctx.ev()
+            if r[0] != "ok":
+                ctx.violation("process_raw-raises", frames=ads[:2], observed=r[1:])
+                return
+            t += 100.0       # everything heard so far times out before the next round
+        fresh = 0x4B0001
+        a1 = "%028X" % bits.es_frame(17, 5, fresh, me)
+        old_addr = gone[len(gone) // 2]
+        b_old = "%028X" % bits.commb_frame(case["df"], rng.fill(27), rng.fill(56), old_addr)
+        b_new = "%028X" % bits.commb_frame(case["df"], rng.fill(27), rng.fill(56), fresh)
+        r = call(d.process_raw, [t], [a1], [t + 0.5, t + 0.6], [b_old, b_new], t + 1.0)
+        ctx.ev()
+        keys = set(d.acs.keys())
+        ok = r[0] == "ok" and "%06X" % old_addr not in keys and "%06X" % fresh in keys and d.acs["%06X" % fresh].get("t") == t + 0.6
+        if not ok:
+            ctx.violation("table-wrong-after-many-evictions", evicted_before=len(gone), old="%06X" % old_addr, fresh="%06X" % fresh,
+                          keys=sorted(keys)[:6], fresh_t=d.acs.get("%06X" % fresh, {}).get("t"), expected_t=t + 0.6, observed=r[:2])
+        ctx.hit("table_after_thousands_of_evictions")
     if case.get("stranger"):
         # replies of transponders that are NOT in the table (addresses a few bits away from the tracked one, also with the
         # register number folded into the address as a data-parity overlay would do) carrying valid register contents:
@@ -209,6 +246,11 @@ def cases(ctx):
         df = rng.choice(AP)
         yield "icao", {"df": df, "n": bits.df_len(df), "addr": 0, "body": "%X" % rng.fill(83), "echo": rng.randrange(1000),
                        "hexcase": rng.choice(("upper", "upper", "lower", "mixed")), "ic": 0}
+    apvals = [0, 0xFFFFFF, 0xFFFFFE, 0x7FFFFF, 0x800000, 1, 0xAAAAAA, 0x555555] + [1 << b_ for b_ in range(24)]
+    for k in range(ctx.share(4000 if quick else 40000)):
+        df = rng.choice(AP)
+        yield "icao", {"df": df, "n": rng.choice((bits.df_len(df), bits.df_len(df), 56, 112)), "addr": 0, "body": "%X" % rng.fill(83),
+                       "apval": apvals[k % len(apvals)], "hexcase": rng.choice(("upper", "lower", "mixed")), "ic": 0}
     for k in range(ctx.share(6000 if quick else 100000)):
         L = rng.choice((14, 28, 28))
         kind = k % 4
@@ -230,6 +272,9 @@ def cases(ctx):
             mot = "%06X" % rng.getrandbits(24)
             lit = ("%02X" % ((rng.choice(AP) << 3) | rng.randrange(8)) + mot * 5)[:L]
         yield "icao", {"df": 0, "n": 4 * L, "addr": 0, "body": "0", "literal": lit, "hexcase": rng.choice(("upper", "upper", "lower", "mixed")), "ic": 0}
+    for k in range(ctx.share(16 if quick else 64)):
+        yield "table", {"addr": rng.getrandbits(24) | 0xA00000, "cs": "%X" % rng.getrandbits(48), "df": rng.choice((20, 21)), "hexcase": "upper",
+                        "hexcase2": "upper", "churn": rng.choice((9, 12, 18)), "per_round": rng.choice((500, 520, 700))}
     for k in range(ctx.share(3000 if quick else 20000)):
         yield "table", {"addr": rng.fill(24) | 0xA00000, "cs": "%X" % rng.fill(48), "df": rng.choice((20, 21)),
                         "hexcase": "upper" if k % 2 == 0 else rng.choice(("lower", "mixed")), "hexcase2": rng.choice(("upper", "lower")), "twin": k % 2 == 0, "stranger": k % 4 == 1}
